@@ -107,8 +107,22 @@ def run(tier, seed, open_findings):
                     except XMLResourceForbidden: outc = 'forbidden'
                     except XMLSchemaException as e: outc = 'libexc:' + type(e).__name__
                     except Exception as e: outc = 'OTHER:' + type(e).__name__
-                    if outc == 'built' or outc.startswith('OTHER') or _events:
-                        sfails.append(dict(case=dict(payload=pname, role=role, cls=cls.__name__), observed=dict(outcome=outc, secret_opened=bool(_events)), required='refused, nothing fetched'))
+                    if outc != 'forbidden' or _events:
+                        sfails.append(dict(case=dict(payload=pname, role=role, cls=cls.__name__), observed=dict(outcome=outc, secret_opened=bool(_events)), required='refused with the forbidden-resource error, nothing fetched'))
+            # the document with the declaration is pulled in by include / redefine / override, the main schema given as a path or as text with a base URL, in every validation mode
+            # of the schema: the refusal is the forbidden-resource error itself (not a collected or converted one) and nothing of the document is used
+            for mech, cls in (('include', xmlschema.XMLSchema10), ('redefine', xmlschema.XMLSchema10), ('include', xmlschema.XMLSchema11), ('override', xmlschema.XMLSchema11)):
+                text = f'<xs:schema {XS}><xs:{mech} schemaLocation="inc.xsd"/><xs:element name="r"/></xs:schema>'
+                open(mainp, 'w').write(text)
+                for how, mode in itertools.product(('path', 'text+base_url'), ('strict', 'lax', 'skip')):
+                    m += 1; _events.clear()
+                    try:
+                        (cls(mainp, defuse='always', validation=mode) if how == 'path' else cls(text, base_url=root, defuse='always', validation=mode)); outc = 'built'
+                    except XMLResourceForbidden: outc = 'forbidden'
+                    except XMLSchemaException as e: outc = 'libexc:' + type(e).__name__
+                    except Exception as e: outc = 'OTHER:' + type(e).__name__
+                    if outc != 'forbidden' or _events:
+                        sfails.append(dict(case=dict(payload=pname, role=f'{mech}d-schema:{how}:{mode}', cls=cls.__name__), observed=dict(outcome=outc, secret_opened=bool(_events)), required='refused with the forbidden-resource error, nothing fetched'))
         # schema documents reached through an xsi:schemaLocation hint of the instance (root or inner element; a new namespace or one already loaded), use_location_hints on
         for pname in ('internal-unused', 'external', 'parameter', 'ext-subset'):
             dtd = payloads(secret, 10)[pname].split('<r>')[0].replace('DOCTYPE r', 'DOCTYPE xs:schema')
